@@ -269,7 +269,7 @@ def judge_include_bytes(asm, acc, case):
         for d in (srcdir, incdir, other, decoy):
             os.makedirs(d)
         size = case['size']
-        content = bytes(rng.randrange(256) for _ in range(size))
+        content = rng.randbytes(size)
         name = ['blob.bin', 'Blob.BIN', 'FONT_8x8.bin', 'data.Bin'][size % 4 if size < 4 else (size // 7) % 4]
         if name != name.lower():
             open(os.path.join(decoy, name.lower()), 'wb').write(b'lower-case twin')
@@ -402,7 +402,9 @@ def plan(tier, seed):
         for cwd in ('src', 'elsewhere', 'decoy', 'root', 'removed'):
             for decoy in ('same', 'different'):
                 for via in (('api', 'api-rel', 'cli') if cwd != 'removed' else ('api',)):
-                    for size in ([0, 1, 5000] if tier == 'quick' else [0, 1, 2, 64, 1000, 5000, 70000]):
+                    # (sizes beyond any buffer a reader might use: 4 KiB, 64 KiB, 1 MiB)
+                    big = [65537, 150001] if (decoy == 'same' and via != 'api-rel' and cwd in ('src', 'elsewhere')) else []
+                    for size in ([0, 1, 5000] + big if tier == 'quick' else [0, 1, 2, 64, 1000, 4097, 5000, 65536, 65537, 70000, 131073, 1048579]):
                         if via == 'cli' and tier == 'quick' and size == 1:
                             continue
                         cases.append({'kind': 'inc', 'loc': loc, 'cwd': cwd, 'decoy': decoy, 'via': via, 'size': size})
